@@ -30,4 +30,24 @@ for id in "$@"; do
 done
 } >> $log 2>&1
 git -C /repo worktree remove --force $wt
+# meta.json: which property, what the change needs in order to manifest (NEEDS=... from the caller / notes.md), what was run and seen
+python3 - "$name" "$dst" "$*" <<'PY'
+import json, os, re, sys
+name, dst, checks = sys.argv[1], sys.argv[2], sys.argv[3].split()
+log = open(os.path.join(dst, 'confirm.log'), errors='replace').read()
+def grab(pat):
+    m = re.search(pat, log); return m.group(1) if m else None
+meta = dict(
+    seed=name, property=name.split('_')[0],
+    needs_to_manifest=os.environ.get('NEEDS') or 'see notes.md',
+    origin='written by an independent sub-agent that saw only the property text and a scratch worktree of /repo (nothing from /verif)',
+    ran=['demo on the unchanged tree (scratch worktree of /repo HEAD)', 'git apply patch.diff', 'demo with the patch',
+         'cmake + ninja + ctest of the 70-test baseline with the patch', 'tools/check.py check <id> against the patched scratch copy for: ' + ' '.join(checks)],
+    demo_exit_unchanged=grab(r'demo exit \(unchanged\) = (\d+)'), demo_exit_patched=grab(r'demo exit \(patched\) = (\d+)'),
+    baseline_with_patch=grab(r'(tests passed: \d+  failed: \d+)'),
+    checks={c: dict(exit=grab(r'check %s exit = (\d+)' % c), violation=bool(re.search(r'VIOLATION property=%s' % c, log))) for c in checks},
+)
+json.dump(meta, open(os.path.join(dst, 'meta.json'), 'w'), indent=1)
+print(json.dumps(meta, indent=1))
+PY
 tail -30 $log
